@@ -3,9 +3,13 @@ package props
 import (
 	"bytes"
 	"context"
+	"encoding/binary"
 	"errors"
 	"fmt"
 	"go.sia.tech/coreutils/chain"
+	"go.sia.tech/mux"
+	"io"
+	stdnet "net"
 	"os"
 	"strings"
 	"sync"
@@ -35,6 +39,11 @@ type treeCM struct {
 	calls map[string]int
 	// wrongTxns: serve these transactions instead of a block's own
 	wrongTxnsFor types.BlockID
+	// extra blocks Block() knows about without their being on the served chain
+	// (a valid block announced by outline must not spread through sync: its
+	// header, relayed by every node that then adopts it, bounces between the
+	// interconnected nodes that do not have the block yet - DESIGN.md 12.7)
+	extra map[types.BlockID]*gen.Node
 }
 
 func newTreeCM(tip *gen.Node, lie string) *treeCM {
@@ -150,10 +159,14 @@ func (c *treeCM) Headers(index types.ChainIndex, max uint64) ([]types.BlockHeade
 func (c *treeCM) Block(id types.BlockID) (types.Block, bool) {
 	c.count("Block")
 	i, ok := c.byID[id]
-	if !ok {
+	var b types.Block
+	if x, isExtra := c.extra[id]; isExtra {
+		b = x.Block
+	} else if !ok {
 		return types.Block{}, false
+	} else {
+		b = c.path[i].Block
 	}
-	b := c.path[i].Block
 	if c.wrongTxnsFor == id {
 		// answer SendTransactions with transactions of another block, or with
 		// none if no other block has any
@@ -370,6 +383,11 @@ func runC11(e *sim.Env) {
 		time.Sleep(time.Duration(e.Range(1, 6)) * time.Second)
 		poll()
 	}
+	// a peer that does not use the typed API at all
+	if e.Chance(1, 3) {
+		c11RawPeer(e, net, nw, victim, tree.ByID[vs.cm.Tip().ID])
+		poll()
+	}
 	// active announcements once the victim has (probably) caught up
 	vtip := tree.ByID[vs.cm.Tip().ID]
 	expectBan := ""
@@ -451,9 +469,10 @@ func runC11(e *sim.Env) {
 		case "outline-wrong-missing-transactions":
 			if child.Block.V2 != nil && len(child.Block.V2Transactions())+len(child.Block.Transactions) > 0 {
 				cm := byzCMs[0]
-				cm.byID[child.ID] = len(cm.path)
-				cm.path = append(cm.path, child)
+				cm.mu.Lock()
+				cm.extra = map[types.BlockID]*gen.Node{child.ID: child}
 				cm.wrongTxnsFor = child.ID
+				cm.mu.Unlock()
 				ob := gateway.OutlineBlock(child.Block, child.Block.Transactions, child.Block.V2Transactions())
 				if announce(func(p *syncer.Peer) error { return p.RelayV2BlockOutline(ob, 5*time.Second) }) && settled {
 					expectBan = "wrong missing transactions"
@@ -557,6 +576,209 @@ func runC11(e *sim.Env) {
 	}
 	e.Nontrivial = true
 	e.Probe("victim_converged")
+}
+
+// c11RawPeer is a peer below the typed API: it completes the handshake by hand
+// (or spoils it) and then writes raw bytes into mux streams - unknown RPC ids,
+// random bytes, valid encodings cut at a drawn offset, absurd length prefixes,
+// an id with nothing after it. None of this may crash or wedge the victim.
+func c11RawPeer(e *sim.Env, net *gen.Net, nw *simnet.Net, victim *netNode, tip *gen.Node) {
+	e.Fault("raw-peer")
+	d := &simnet.Dialer{N: nw, Host: "10.8.0.1"}
+	v1 := func(fn func(enc *types.Encoder)) []byte {
+		var buf bytes.Buffer
+		enc := types.NewEncoder(&buf)
+		enc.WriteUint64(0)
+		fn(enc)
+		enc.Flush()
+		b := buf.Bytes()
+		binary.LittleEndian.PutUint64(b, uint64(len(b)-8))
+		return b
+	}
+	readV1 := func(c stdnet.Conn) ([]byte, error) {
+		var l [8]byte
+		if _, err := io.ReadFull(c, l[:]); err != nil {
+			return nil, err
+		}
+		n := binary.LittleEndian.Uint64(l[:])
+		if n > 4096 {
+			return nil, errors.New("oversized")
+		}
+		b := make([]byte, n)
+		_, err := io.ReadFull(c, b)
+		return b, err
+	}
+	dial := func() stdnet.Conn {
+		ctx, cancel := context.WithTimeout(context.Background(), 5*time.Second)
+		defer cancel()
+		c, err := d.DialContext(ctx, "tcp", victim.addr)
+		if err != nil {
+			return nil
+		}
+		c.SetDeadline(time.Now().Add(20 * time.Second))
+		return c
+	}
+	// spoiled handshakes
+	for i, n := 0, e.Range(0, 3); i < n; i++ {
+		c := dial()
+		if c == nil {
+			continue
+		}
+		switch e.Intn(5) {
+		case 0:
+			c.Write(e.Bytes(e.Range(1, 300)))
+		case 1: // a length prefix promising far more than follows
+			var l [8]byte
+			binary.LittleEndian.PutUint64(l[:], 1<<40)
+			c.Write(l[:])
+			c.Write(e.Bytes(20))
+		case 2: // version, then a header with an absurd address
+			c.Write(v1(func(enc *types.Encoder) { enc.WriteString("2.0.0") }))
+			readV1(c)
+			c.Write(v1(func(enc *types.Encoder) {
+				net.Genesis.ID().EncodeTo(enc)
+				enc.Write(e.Bytes(8))
+				enc.WriteString(strings.Repeat("x", e.Range(0, 3000)))
+			}))
+		case 3: // version only, then silence
+			c.Write(v1(func(enc *types.Encoder) { enc.WriteString(strings.Repeat("9", e.Range(0, 200))) }))
+			time.Sleep(time.Duration(e.Range(1, 8)) * time.Second)
+		case 4:
+		}
+		c.Close()
+		e.Probe("raw_spoiled_handshake")
+	}
+	// a proper handshake, then raw streams
+	c := dial()
+	if c == nil {
+		return
+	}
+	defer c.Close()
+	c.Write(v1(func(enc *types.Encoder) { enc.WriteString("2.0.0") }))
+	if _, err := readV1(c); err != nil {
+		return
+	}
+	c.Write(v1(func(enc *types.Encoder) {
+		net.Genesis.ID().EncodeTo(enc)
+		enc.Write([]byte("rawpeer1"))
+		enc.WriteString("10.8.0.1:9981")
+	}))
+	if acc, err := readV1(c); err != nil || !bytes.Contains(acc, []byte("accept")) {
+		return
+	}
+	if _, err := readV1(c); err != nil {
+		return
+	}
+	c.Write(v1(func(enc *types.Encoder) { enc.WriteString("accept") }))
+	c.SetDeadline(time.Time{})
+	m, err := mux.DialAnonymous(c)
+	if err != nil {
+		e.Logf("raw peer: mux: %v", err)
+		return
+	}
+	defer m.Close()
+	ids := []string{"ShareNodes", "DiscoverIP", "SendHeaders", "SendV2Blocks", "SendTransactions", "SendCheckpoint", "RelayV2Header", "RelayV2Outline", "RelayV2Txns"}
+	valid := func(id string) []byte {
+		var buf bytes.Buffer
+		enc := types.NewEncoder(&buf)
+		switch id {
+		case "SendHeaders":
+			tip.Index().EncodeTo(enc)
+			enc.WriteUint64(10)
+		case "SendV2Blocks":
+			enc.WriteUint64(2)
+			tip.ID.EncodeTo(enc)
+			net.Genesis.ID().EncodeTo(enc)
+			enc.WriteUint64(5)
+		case "SendTransactions":
+			tip.Index().EncodeTo(enc)
+			enc.WriteUint64(1)
+			types.Hash256{1}.EncodeTo(enc)
+		case "SendCheckpoint":
+			tip.Index().EncodeTo(enc)
+		case "RelayV2Header":
+			h := tip.Block.Header()
+			h.EncodeTo(enc)
+		case "RelayV2Outline":
+			enc.WriteUint64(tip.Height + 1)
+			tip.ID.EncodeTo(enc)
+			enc.WriteUint64(0)
+			enc.WriteTime(tip.Block.Timestamp)
+			types.VoidAddress.EncodeTo(enc)
+			enc.WriteUint64(0)
+		case "RelayV2Txns":
+			tip.Index().EncodeTo(enc)
+			enc.WriteUint64(1)
+			types.V2Transaction{ArbitraryData: []byte("x")}.EncodeTo(enc)
+		}
+		enc.Flush()
+		return buf.Bytes()
+	}
+	for i, n := 0, e.Range(3, 25); i < n; i++ {
+		st := m.DialStream()
+		st.SetDeadline(time.Now().Add(10 * time.Second))
+		wrote, dead := false, false
+		write := func(b []byte) {
+			if len(b) == 0 || dead {
+				return
+			}
+			if _, err := st.Write(b); err != nil {
+				dead = true // the victim hung up on us: nothing more to send
+				return
+			}
+			wrote = true
+		}
+		id := ids[e.Intn(len(ids))]
+		spec := types.NewSpecifier(id)
+		kind := e.Intn(7)
+		switch kind {
+		case 0: // unknown id
+			copy(spec[:], e.Bytes(16))
+			write(spec[:])
+			write(e.Bytes(e.Range(0, 200)))
+		case 1: // id, then nothing until the victim gives up
+			write(spec[:])
+			if e.Chance(1, 3) {
+				time.Sleep(time.Duration(e.Range(1, 20)) * time.Second)
+			}
+		case 2: // id + random bytes
+			write(spec[:])
+			write(e.Bytes(e.Range(1, 4000)))
+		case 3: // valid request cut short
+			write(spec[:])
+			if v := valid(id); len(v) > 0 {
+				write(v[:e.Intn(len(v))])
+			}
+		case 4: // a slice length prefix far beyond the stream
+			write(spec[:])
+			var buf bytes.Buffer
+			enc := types.NewEncoder(&buf)
+			if id == "SendTransactions" || id == "RelayV2Txns" || id == "SendHeaders" || id == "SendCheckpoint" {
+				tip.Index().EncodeTo(enc)
+			}
+			enc.WriteUint64(uint64(1) << uint(e.Range(20, 62)))
+			enc.Flush()
+			write(buf.Bytes())
+			write(e.Bytes(e.Range(0, 100)))
+		case 5: // valid request followed by trailing garbage
+			write(spec[:])
+			write(valid(id))
+			write(e.Bytes(e.Range(1, 500)))
+		case 6: // part of the id only
+			write(spec[:e.Range(1, 15)])
+		}
+		if e.Chance(1, 2) && wrote && !dead {
+			// read whatever comes back, up to a bound
+			io.CopyN(io.Discard, st, 1<<16)
+		}
+		st.Close()
+		e.Probes["raw_streams"]++
+		if dead {
+			e.Probe("raw_peer_disconnected")
+			break
+		}
+	}
+	time.Sleep(2 * time.Second)
 }
 
 // c11Checkpoint is the bootstrap path: a fresh node asks peers for a
@@ -670,9 +892,9 @@ var _ = sim.NewEnv
 func init() {
 	register(&Prop{
 		ID: "C11", Run: runC11, Quick: 1500, Thorough: 40000, Level: "exploration",
-		Rule:        "one run = a victim node (real syncer + gateway + mux + manager) started on a drawn ancestor of the honest chain, 1-3 honest real nodes, and 1-2 Byzantine nodes: real syncers whose ChainManager is a harness object serving a chosen path of the generated tree (optionally a heavier header-valid chain with a single-field-invalid block in the middle) and lying in one drawn way {insufficient-work header, wrong parent, bad timestamp, wrong remaining count, fewer / more / other-branch / reordered blocks, tampered checkpoint state, stalling past the timeout, garbage node addresses, honest}; after the victim has synced, one drawn announcement sent by the first Byzantine node straight to the victim {header with insufficient work, header with unknown parent, outline of an invalid block on the victim's tip, outline whose missing transactions are answered with other transactions, empty transaction set, transaction set with unknown basis}; oracles at every poll: C01 audit of the victim, total work never decreases, no recovered handler panic, no process death; 40 simulated minutes after the Byzantine peers left the victim is on the heaviest honest chain; provable misbehaviour (insufficient-work header, invalid outline block, wrong missing transactions, empty set) is reported to PeerStore.Ban and honest peers are not; distinct = (regime, lie, announcement); all runs non-trivial",
+		Rule:        "one run = a victim node (real syncer + gateway + mux + manager) started on a drawn ancestor of the honest chain, 1-3 honest real nodes, and 1-2 Byzantine nodes: real syncers whose ChainManager is a harness object serving a chosen path of the generated tree (optionally a heavier header-valid chain with a single-field-invalid block in the middle) and lying in one drawn way {insufficient-work header, wrong parent, bad timestamp, wrong remaining count, fewer / more / other-branch / reordered blocks, tampered checkpoint state, stalling past the timeout, garbage node addresses, honest}; in 1 run in 3 a raw peer that spoils handshakes and writes raw bytes into mux streams (unknown ids, random bytes, truncated encodings, absurd length prefixes, trailing garbage, silence); after the victim has synced, one drawn announcement sent by the first Byzantine node straight to the victim {header with insufficient work, header with unknown parent, outline of an invalid block on the victim's tip, outline whose missing transactions are answered with other transactions, empty transaction set, transaction set with unknown basis}; oracles at every poll: C01 audit of the victim, total work never decreases, no recovered handler panic, no process death; 40 simulated minutes after the Byzantine peers left the victim is on the heaviest honest chain; provable misbehaviour (insufficient-work header, invalid outline block, wrong missing transactions, empty set) is reported to PeerStore.Ban and honest peers are not; distinct = (regime, lie, announcement); all runs non-trivial",
 		Real:        []string{"victim and honest nodes: syncer.Syncer, gateway, mux, chain.Manager, chain.DBStore", "Byzantine nodes: real syncer / gateway / mux (well-formed encodings) over a lying ChainManager"},
 		Stub:        []string{"network: simnet", "peer store: harness peerStore with real bans", "disk: simdisk.DB", "Byzantine chain manager: harness treeCM"},
-		Assumptions: []string{"only well-formed encodings: the raw (malformed-bytes) peer of the design is not built", "ban expectations only for misbehaviour the code itself calls ban-worthy"},
+		Assumptions: []string{"ban expectations only for misbehaviour the code itself calls ban-worthy"},
 	})
 }
